@@ -178,3 +178,27 @@ Example ex_fin_x_scores' :
 Proof. vm_compute. repeat split. Qed.
 Example ex_bm25_zero_times_inf : bm25_score (3 # 2) [0]%Z (map eff_weight [XPosInf]) == 0.
 Proof. vm_compute. reflexivity. Qed.
+
+(** ---- 4c. The treatment of the binary64 special values is proved, not assumed.  Model/ScoreXW.v spells out
+    the three operations the scorer performs on a weight (the cap `w > max`, `score * w` with IEEE special values,
+    the comparisons `> best` / `> max`, epsilonEqualsOne) on NaN / +-Inf / rationals; the decisions they produce are
+    those of the exact model with [eff_weight]: a candidate replaces the running best of scoreLine, resp. a weight
+    raises boostScore's running maximum, exactly when the model says so — for every weight, every non-negative
+    score and best (scores before the weight are in [0, base_bound]; the best starts at 0 / the maximum at 1). *)
+From ZV Require Import Model.ScoreXW Proofs.ScoreXW.
+Theorem C29_special_weights_decide_as_modelled : forall (s best m : Q) (w : xweight),
+  0 <= s -> 0 <= best -> 1 <= m ->
+  x_candidate_wins s w best = Qltb best (if eps_one (eff_weight w) then s else s * eff_weight w) /\
+  x_weight_raises_max w m = Qltb m (eff_weight w) /\
+  match cap_weight w with XFin q => q <= c_maxBoostWeight | XPosInf => False | _ => True end.
+Proof.
+  intros s best m w Hs Hb Hm. split; [now apply candidate_wins_eff|]. split; [now apply weight_raises_max_eff|apply cap_weight_bounded].
+Qed.
+Print Assumptions C29_special_weights_decide_as_modelled.
+(* non-vacuity: a NaN or -Inf weight never wins, +Inf wins with a positive score and does not with score 0 (0 x cap = 0,
+   where the uncapped code computed 0 x Inf = NaN), a rational above the cap is the cap *)
+Example ex_special_weights :
+  x_candidate_wins 500 XNaN 0 = false /\ x_candidate_wins 500 XNegInf 0 = false /\ x_candidate_wins 500 XPosInf 0 = true /\
+  x_candidate_wins 0 XPosInf 0 = false /\ x_candidate_wins 500 (XFin 2) 1200 = false /\ x_candidate_wins 500 (XFin 3) 1200 = true /\
+  cap_weight (XFin (c_maxBoostWeight * 10)) = XFin c_maxBoostWeight /\ x_weight_raises_max XNaN 1 = false /\ x_weight_raises_max XPosInf 1 = true.
+Proof. vm_compute. repeat split. Qed.
